@@ -215,6 +215,82 @@ func (e *c09Env) canary(fuzzedBucket string) []disc {
 	return ds
 }
 
+// sweep sends the listing requests of every kind with small page sizes and the markers the
+// server hands back, and demands a well-formed answer for each.
+func (e *c09Env) sweep(cs c09Case) []disc {
+	buckets := []string{"bk0", "bk1"}
+	if e.st.Kind.IsSingle() {
+		buckets = []string{backends.SingleBucketName}
+	}
+	var ids []string
+	for _, u := range e.r.M.Uploads {
+		ids = append(ids, u.ID+"\x00"+u.B+"\x00"+u.Key)
+	}
+	check := func(l lreq) (*s3x.Resp, []disc) {
+		l.Family = "sweep:" + l.Family
+		rq, r := e.send(l)
+		d := wellFormed(rq, r)
+		for i := range d {
+			d[i].Detail = "after the request stream, " + d[i].Detail
+		}
+		return r, d
+	}
+	for _, b := range buckets {
+		for n := 1; n <= 4; n++ {
+			for _, delim := range []string{"", "/"} {
+				q := func(kv ...string) [][2]string {
+					if delim != "" {
+						kv = append(kv, "delimiter", delim)
+					}
+					return s3x.Q(kv...)
+				}
+				// uploads: follow the markers for a few pages
+				km, um := "", ""
+				for page := 0; page < 6; page++ {
+					kv := []string{"uploads", s3x.Bare, "max-uploads", fmt.Sprint(n)}
+					if km != "" {
+						kv = append(kv, "key-marker", km, "upload-id-marker", um)
+					}
+					r, d := check(lreq{Method: "GET", Bucket: b, Query: q(kv...), Family: "listUploads"})
+					if len(d) > 0 {
+						return d
+					}
+					var doc s3x.ListUploadsDoc
+					if r.Status != 200 || r.XML(&doc) != nil || !doc.IsTruncated || doc.NextKeyMarker == "" {
+						break
+					}
+					km, um = doc.NextKeyMarker, doc.NextUploadIdMarker
+				}
+				if _, d := check(lreq{Method: "GET", Bucket: b, Query: q("versions", s3x.Bare, "max-keys", fmt.Sprint(n)), Family: "listVersions"}); len(d) > 0 {
+					return d
+				}
+				if _, d := check(lreq{Method: "GET", Bucket: b, Query: q("max-keys", fmt.Sprint(n)), Family: "listBucket"}); len(d) > 0 {
+					return d
+				}
+				if _, d := check(lreq{Method: "GET", Bucket: b, Query: q("list-type", "2", "max-keys", fmt.Sprint(n)), Family: "listBucketV2"}); len(d) > 0 {
+					return d
+				}
+			}
+			for _, id := range ids {
+				p := strings.SplitN(id, "\x00", 3)
+				if p[1] != b {
+					continue
+				}
+				for _, marker := range []string{"", "1", "2", "3", "10000"} {
+					kv := []string{"uploadId", p[0], "max-parts", fmt.Sprint(n)}
+					if marker != "" {
+						kv = append(kv, "part-number-marker", marker)
+					}
+					if _, d := check(lreq{Method: "GET", Bucket: b, Key: p[2], Query: s3x.Q(kv...), Family: "listParts"}); len(d) > 0 {
+						return d
+					}
+				}
+			}
+		}
+	}
+	return nil
+}
+
 func oracleBucketOK(b string) bool {
 	if len(b) < 3 || len(b) > 63 {
 		return false
@@ -230,7 +306,7 @@ func oracleBucketOK(b string) bool {
 
 func c09Exec(cs c09Case, onReq func(l lreq, rq *s3x.Req, r *s3x.Resp)) (ds []disc) {
 	st := backends.Must(cs.Backend, cs.Opts)
-	defer st.Close()
+	defer func() { st.Close() }()
 	e := &c09Env{st: st, r: prog.NewRunner(st)}
 	if st.Opts.HostBucket {
 		e.r.Addr = func(bucket, rest string) (string, string) { return bucket + "." + c09Base, "/" + rest }
@@ -249,6 +325,13 @@ func c09Exec(cs c09Case, onReq func(l lreq, rq *s3x.Req, r *s3x.Resp)) (ds []dis
 			return sd
 		}
 	}
+	defer func() {
+		// whatever state the requests left behind, every paging entry point must still answer
+		// well-formed for every small page size
+		if len(ds) == 0 {
+			ds = e.sweep(cs)
+		}
+	}()
 	for i, l := range cs.Requests {
 		if os.Getenv("VERIF_TRACE") != "" {
 			fmt.Fprintf(os.Stderr, "TRACE %s %+v %s %s body=%q hdr=%v\n", cs.Backend, cs.Opts, l.Method, l.pathStyle().Target(), trunc(l.Body, 300), l.Header)
@@ -310,8 +393,16 @@ func c09GenSetup(rt *rapid.T, k backends.Kind, opts backends.Options) []prog.Op 
 		ops = append(ops, prog.Op{K: "init", B: "bk0", Key: "a"}, prog.Op{K: "init", B: "bk0", Key: "d/x", Meta: [][2]string{{"X-Amz-Meta-U", "u"}}}, prog.Op{K: "init", B: "bk0", Key: "a"},
 			prog.Op{K: "part", Ref: 0, PartN: 1, Body: b("p1")}, prog.Op{K: "part", Ref: 0, PartN: 3, Body: b("p3")}, prog.Op{K: "part", Ref: 1, PartN: 2, Body: b("q2")},
 			prog.Op{K: "part", Ref: 1, PartN: 10000, Body: b("q10000")})
-		if rapid.Bool().Draw(rt, "finish") {
+		switch rapid.IntRange(0, 4).Draw(rt, "finish") {
+		case 1:
 			ops = append(ops, prog.Op{K: "complete", Ref: 2, Parts: nil}, prog.Op{K: "abort", Ref: 2})
+		case 2:
+			// the only upload of the last key goes away: its key must leave the upload index
+			ops = append(ops, prog.Op{K: "abort", Ref: 1})
+		case 3:
+			ops = append(ops, prog.Op{K: "complete", Ref: 1, Parts: []prog.Part{{N: 2}, {N: 10000}}})
+		case 4:
+			ops = append(ops, prog.Op{K: "abort", Ref: 0}, prog.Op{K: "abort", Ref: 2}, prog.Op{K: "init", B: "bk0", Key: "zz/last"}, prog.Op{K: "abort", Ref: 3})
 		}
 	}
 	return ops
